@@ -63,8 +63,10 @@
                      (groups[num_groups..]) lists exactly the unused group ids, each once
      GRootSum        nodes[0].freq = sum of the leaf weights, and nc <= nodes[0].freq <= limit
 
-   Measured (16 workers):  .cfg   nine instances, 1,042,353 states generated, 210,138 distinct, 32 s
-                           _t.cfg seven instances, 16,636,255 generated, 3,405,208 distinct, 6.5 min
+   (MC_Codec_Lh1Lock_d.cfg = the bounded run with the deeper instance set Deep.)
+   Measured:  .cfg   (Quick)     see checks/c02_groups.py, 8 workers, about 20 s
+              _d.cfg (Deep)      1,042,353 states generated, 210,138 distinct, 33 s with 16 workers
+              _t.cfg (Thorough)  16,636,255 generated, 3,405,208 distinct, 6.5 min with 16 workers
    Each invariant was seen to fail on a deliberately wrong copy of Codec_Lh1Groups (tie rule of
    the rebuild, no leader swap, `>` for `>=` at the limit, halving rounded down, `>=` in the
    reference's search, flipped bit in read_code / in the walk, stale group_leader, no free_group).
@@ -83,10 +85,20 @@ Quick == { [nc |-> 2, limit |-> 4, depth |-> 16],
            [nc |-> 4, limit |-> 8, depth |-> 9],
            [nc |-> 5, limit |-> 8, depth |-> 7],
            [nc |-> 3, limit |-> 16, depth |-> 24],
-           [nc |-> 4, limit |-> 12, depth |-> 16],
-           [nc |-> 6, limit |-> 10, depth |-> 9],
-           [nc |-> 9, limit |-> 12, depth |-> 6],
-           [nc |-> 16, limit |-> 18, depth |-> 4] }
+           [nc |-> 4, limit |-> 12, depth |-> 14],
+           [nc |-> 6, limit |-> 10, depth |-> 8],
+           [nc |-> 9, limit |-> 12, depth |-> 5],
+           [nc |-> 16, limit |-> 18, depth |-> 3] }
+\* the same, deeper (MC_Codec_Lh1Lock_d.cfg)
+Deep == { [nc |-> 2, limit |-> 4, depth |-> 16],
+          [nc |-> 3, limit |-> 6, depth |-> 12],
+          [nc |-> 4, limit |-> 8, depth |-> 9],
+          [nc |-> 5, limit |-> 8, depth |-> 7],
+          [nc |-> 3, limit |-> 16, depth |-> 24],
+          [nc |-> 4, limit |-> 12, depth |-> 16],
+          [nc |-> 6, limit |-> 10, depth |-> 9],
+          [nc |-> 9, limit |-> 12, depth |-> 6],
+          [nc |-> 16, limit |-> 18, depth |-> 4] }
 \* depth is not used by the unbounded configuration
 Thorough == { [nc |-> 2, limit |-> 32, depth |-> 0],
               [nc |-> 3, limit |-> 24, depth |-> 0],
@@ -194,9 +206,13 @@ GGroups ==
 
 GLeader ==
   \A i \in 0..(Tt - 1) :
-     LET grp == g.nodes[i].group
-         first == CHOOSE j \in 0..(Tt - 1) : g.nodes[j].group = grp /\ \A m \in 0..(j - 1) : g.nodes[m].group # grp
-     IN grp \in 0..(Tt - 1) /\ g.group_leader[grp] = first
+     LET grp == g.nodes[i].group IN
+     IF grp \in 0..(Tt - 1)
+     THEN LET ld == g.group_leader[grp] IN
+          IF ld \in 0..i
+          THEN g.nodes[ld].group = grp /\ \A m \in 0..(ld - 1) : g.nodes[m].group # grp
+          ELSE FALSE
+     ELSE FALSE
 
 GLeafNodes ==
   /\ \A s \in Syms : LET i == g.leaf_nodes[s] IN
